@@ -81,6 +81,9 @@ func Generate(r *sim.Rng, prop, tier string, idx int) *sim.Case {
 	default:
 		genC05(r, c, tier, idx)
 	}
+	if r.Chance(1, 3) {
+		c.Knobs["deadline_ctx"] = 1 // time limits of attempts are deadlines of their contexts (in-memory backend)
+	}
 	if r.Chance(1, 5) {
 		c.Knobs["wrap_errors"] = 1 // a storage that annotates its errors (errors.Is still identifies them)
 	}
@@ -468,6 +471,22 @@ func genC05(r *sim.Rng, c *sim.Case, tier string, idx int) {
 		}
 		c.Tasks = append(c.Tasks, t0)
 		c.Knobs["locker_t0"] = 0
+		if len(c.Faults) == 0 && r.Chance(1, 4) {
+			// a short outage of the holder's node around the Unlock instant: the renewal in
+			// flight fails transiently AND the Delete of Unlock fails; the storage is back
+			// before any retry. The finished tenure's renewal must still die out, and its
+			// orphaned record must go with its lease
+			d1 := time.Duration(r.I64n(int64(lease / 16)))
+			d2 := lease/32 + time.Duration(r.I64n(int64(lease/8-lease/32)))
+			first := time.Duration(t0.Ops[0].D)
+			if first > d1 {
+				c.Tasks = append(c.Tasks, sim.Task{Name: "tO", Ops: []sim.Op{
+					{K: "sleep", D: int64(first - d1)},
+					{K: "outage", N: 0, D: int64(d1 + d2)},
+				}})
+				c.Knobs["locker_tO"] = 0
+			}
+		}
 		if r.Chance(1, 2) {
 			t1 := sim.Task{Name: "t1"}
 			t1.Ops = append(t1.Ops, sim.Op{K: "sleep", D: int64(lease / 8)})
